@@ -319,12 +319,16 @@ def _final_checks(model: Model) -> list[str]:
             if solve_budget and (pos_of[id(t)] in solve_at):
                 solve_budget -= 1
                 solved += 1
-                sol = sp.solve(sp.Eq(E, 1), t, dict=True, check=False)  # check=False: assumptions of the unknown may make E = 1 unsatisfiable, which is not aliasing
+                # right-hand side: a plain symbol without assumptions (a number could make the equation
+                # unsatisfiable under the unknown's assumptions, e.g. two negative symbols summing to 1,
+                # and SymPy then rightly returns no solution -- that is not aliasing)
+                rhs = sp.Symbol("rhs_any")
+                sol = sp.solve(sp.Eq(E, rhs), t, dict=True, check=False)
                 if len(sol) != 1 or sol[0][t].has(t):
                     raise Violation("independence", "solve:symbol", f"solve for {r['display']!r} returned {sol}")
-                back = num(E.subs(t, sol[0][t]))
-                if back != 1 and not (back.is_number and abs(sp.N(back - 1)) <= 1e-9 * max(1, abs(sp.N(total)))):
-                    raise Violation("independence", "solve:symbol", f"solution for {r['display']!r} does not satisfy the equation (residual {back - 1})")
+                back = num(E.subs(t, sol[0][t])).subs(rhs, sp.Rational(17, 3)) - sp.Rational(17, 3)
+                if back != 0 and not (back.is_number and abs(sp.N(back)) <= 1e-9 * max(1, abs(sp.N(total)))):
+                    raise Violation("independence", "solve:symbol", f"solution for {r['display']!r} does not satisfy the equation (residual {back})")
     # I5 printing
     allowed = set()
     for r in model.recs:
